@@ -95,6 +95,53 @@ fn boundaries(text: &[u8]) -> Vec<usize> {
     b
 }
 
+/// An edit that changes the ROLE of a token without touching the token itself: delete the complete
+/// token in front of it, or insert a copy of some other token of the document in front of it.  For
+/// grammars with `#`-prefixed constructs (zoo/c08role: `pragma: '#' comment`, comment also an extra)
+/// half of these toggle the `#` in front of a comment.
+fn role_edit(rng: &mut Rng, text: &[u8]) -> Option<TextEdit> {
+    let find_all = |pat: &[u8]| -> Vec<usize> { (0..text.len().saturating_sub(pat.len() - 1)).filter(|&i| text[i..].starts_with(pat)).collect() };
+    let comments = find_all(b"/*");
+    if !comments.is_empty() && rng.chance(1, 2) {
+        let c = *rng.pick(&comments);
+        // the non-blank byte in front of the comment
+        let mut j = c;
+        while j > 0 && text[j - 1].is_ascii_whitespace() {
+            j -= 1;
+        }
+        if j > 0 && text[j - 1] == b'#' {
+            return Some(TextEdit { start: j - 1, old_end: j, ins: if rng.chance(1, 2) { Vec::new() } else { b" ".to_vec() } });
+        }
+        return Some(TextEdit { start: c, old_end: c, ins: if rng.chance(1, 2) { b"#".to_vec() } else { b"# ".to_vec() } });
+    }
+    // token starts / ends (whitespace separated)
+    let mut toks: Vec<(usize, usize)> = Vec::new();
+    let mut i = 0;
+    while i < text.len() {
+        if text[i].is_ascii_whitespace() {
+            i += 1;
+            continue;
+        }
+        let st = i;
+        while i < text.len() && !text[i].is_ascii_whitespace() {
+            i += 1;
+        }
+        toks.push((st, i));
+    }
+    if toks.is_empty() {
+        return None;
+    }
+    let (st, en) = *rng.pick(&toks);
+    if rng.chance(1, 2) {
+        Some(TextEdit { start: st, old_end: en, ins: Vec::new() })
+    } else {
+        let (a, b) = *rng.pick(&toks);
+        let mut ins = text[a..b].to_vec();
+        ins.push(b' ');
+        Some(TextEdit { start: st, old_end: st, ins })
+    }
+}
+
 fn count_query(lang: &Language, tree: &Tree, text: &[u8]) -> usize {
     let q = match Query::new(lang, "(_) @n") {
         Ok(q) => q,
@@ -151,7 +198,24 @@ fn gen_doc(b: &zoo::Built, id: &str, rng: &mut Rng) -> Vec<u8> {
 /// One sequential history; returns number of steps emitted.
 fn seq_history(out: &mut impl Write, cid: &str, lang_id: &str, b: &zoo::Built, persist: bool, seed: u64, nops: usize, kinds: &mut [usize; 7]) -> usize {
     let mut rng = Rng::new(seed);
-    let text = gen_doc(b, lang_id, &mut rng);
+    // `role` histories (mode suffix "+role") prefer edits that change a neighbouring token's role
+    let role = lang_id == "c08role";
+    let mut text = gen_doc(b, lang_id, &mut rng);
+    if role {
+        // make sure there is a token that is NOT stored inline, in either role
+        let long = format!("/* {}*/", "lorem ipsum dolor sit amet ".repeat(12));
+        let c = *rng.pick(&["/* one\n   two */", "/* a\n b\n c */", long.as_str(), "/* c */"]);
+        let snippet = format!("{}{}{} ab\n", if rng.chance(1, 2) { "\n" } else { " " }, ["# ", "#", ""][rng.below(3)], c);
+        if rng.chance(1, 2) {
+            text.extend_from_slice(snippet.as_bytes());
+        } else {
+            let mut t = snippet.into_bytes();
+            t.extend_from_slice(&text);
+            text = t;
+        }
+    }
+    // a role history starts with: copy 0 -> 1, role-changing edit of the copy, re-parse with the copy as old tree
+    let script: Vec<(usize, usize)> = if role { vec![(0, 0), (2, 1), (5, 1)] } else { Vec::new() };
     let mut shared_parser = Parser::new();
     shared_parser.set_language(&b.language).unwrap();
     let parse = |shared: &mut Parser, text: &[u8], old: Option<&Tree>| -> Option<Tree> {
@@ -171,18 +235,24 @@ fn seq_history(out: &mut impl Write, cid: &str, lang_id: &str, b: &zoo::Built, p
     emit_state(out, &fam);
     writeln!(out, "run").unwrap();
     let mut steps = 1;
-    for _ in 0..nops {
+    for opi in 0..nops {
         let live: Vec<usize> = (0..fam.trees.len()).filter(|&h| fam.trees[h].is_some()).collect();
         if live.is_empty() {
             break;
         }
-        let h = *rng.pick(&live);
+        let mut h = *rng.pick(&live);
         let mut k = rng.below(10);
         if live.len() <= 1 && k >= 8 {
             k = 0; // keep at least one handle
         }
         if live.len() >= 6 && (k <= 1) {
             k = 9;
+        }
+        if let Some(&(sk, sh)) = script.get(opi) {
+            if fam.trees.get(sh).map(|t| t.is_some()).unwrap_or(false) {
+                k = sk;
+                h = sh;
+            }
         }
         match k {
             0 | 1 => {
@@ -198,7 +268,10 @@ fn seq_history(out: &mut impl Write, cid: &str, lang_id: &str, b: &zoo::Built, p
                 let text = fam.texts[h].clone();
                 let alpha = alphabet_for(&text);
                 let refs: Vec<&[u8]> = alpha.iter().map(|v| v.as_slice()).collect();
-                let te = random_edit(&mut rng, &text, &boundaries(&text), &refs);
+                let te = match if role && (opi < script.len() || rng.chance(2, 3)) { role_edit(&mut rng, &text) } else { None } {
+                    Some(te) => te,
+                    None => random_edit(&mut rng, &text, &boundaries(&text), &refs),
+                };
                 let new_text = te.apply(&text);
                 let ie = te.input_edit(&text, &new_text);
                 fam.trees[h].as_mut().unwrap().edit(&ie);
@@ -378,6 +451,11 @@ fn main() {
             let lang = langs[i % 4];
             let n = [2, 3, 4, 8, 16][i % 5];
             specs.push(format!("thr {lang} {} {n} {}", rng.next() % 1_000_000_007, rng.range(10, if thorough { 200 } else { 60 })));
+        }
+        // one token as extra AND as rule member, role-switching edits of copies (wave 5)
+        for i in 0..(if thorough { 60 } else { 10 }) {
+            let mode = if i % 3 == 2 { "persist" } else { "fresh" };
+            specs.push(format!("seq c08role {mode} {} {}", rng.next() % 1_000_000_007, rng.range(8, 40)));
         }
     }
     let mut steps = 0usize;
